@@ -43,6 +43,16 @@ pub fn record_c10(rng: &mut Rng, count: u64, out: &mut Out) {
         let back = r.and_then(|r| guarded(|| layer.from_ring(r)));
         out.emit(json!({"ev": "to_ring", "d": depth, "c": c.json(), "p": if r.is_none() { 1 } else { 0 }, "r": r.map_or(json!([]), big_digits),
                         "back": back.map_or(json!([]), |h| cell_json(depth, h))}));
+        if k % 6 == 0 {
+          // history follow-up: the same cell number at another depth
+          let (d2, c2) = crate::sc_nested::same_number_other_depth(rng, depth, h);
+          let l2 = nested::get_or_create(d2);
+          let h2 = hash_of_cell(d2, c2);
+          let r2 = guarded(|| l2.to_ring(h2));
+          let back2 = r2.and_then(|r| guarded(|| l2.from_ring(r)));
+          out.emit(json!({"ev": "to_ring", "d": d2, "c": c2.json(), "p": if r2.is_none() { 1 } else { 0 }, "r": r2.map_or(json!([]), big_digits),
+                          "back": back2.map_or(json!([]), |h| cell_json(d2, h))}));
+        }
       }
       1 => {
         let r = gen_ring_index(rng, n);
